@@ -29,6 +29,20 @@ CHECKS = {
              "dt, else 1e-9 relative and +-1 step as the statement allows; the algorithm step itself is abstract here (C01/C07 cover it).",
         technique="Lean 4 proof over an executable model tied to translator-generated source text + differential correspondence",
         design="§6 C09"),
+    "C10": dict(
+        text="Lean theorems over an executable model of the engine lifecycle (native globals with null/live/dangling pointers, "
+             "engineexport_* entry points, LibRDEngine wrapper attributes, one or two engine objects on one library): no call faults "
+             "on lifecycle-respecting single-object histories, iterate_n/run are finite compositions of Iterate, fixed-step completion after "
+             "floor(t_max/dt)+1 steps (= ceil +-1), completion absorbing for every drive call, status refers to the current set-up, output "
+             "fetch is pure, finalize idempotent, set-up from any non-crashed world observes the same (clean slate), independence for "
+             "non-overlapping live intervals; the full independence statement is proved FALSE by a concrete history (known finding), "
+             "as are use-after-finalize and iterate_n(0)-after-completion (reported findings). Tie: generated entry-point bodies, "
+             "globals, wrapper statements + correspondence `lifecycle` on call histories run in sandboxed children + reference state "
+             "machine oracle (returns in time, completion step, status, fresh-process trajectories).",
+        note="Lean kernel + {propext, Classical.choice, Quot.sound}; translator; correspondence harness; termination of the native loops "
+             "inside one step and of the redistribution loop is observed (time-outs), not proved (C14 owns the loop).",
+        technique="Lean 4 proof over an executable state-machine model tied to translator-generated source text + differential correspondence in sandboxed processes",
+        design="§6 C10"),
 }
 
 ALL = ["C%02d" % i for i in range(1, 21)]
